@@ -83,7 +83,7 @@ def _numeric(P, model, callback):
         return bd.sympy_run(P, model)
     E, terms = P.concretize(model)
     return bd.numeric_run(
-        P.sizes, E, terms, hermitian=P.hermitian, fd=P.cfg.get("fd"), max_order=P.max_order, callback=callback
+        P.sizes, E, terms, hermitian=P.hermitian, fd=P.cfg.get("fd"), max_order=P.max_order, callback=callback, int_h0=bool(P.cfg.get("int_h0"))
     )
 
 
